@@ -29,7 +29,7 @@ class Driver:
         self.live = {}  # slot -> set of images loaded since the tree was put there
         self.prev_open = None
         self.prev_load = None
-        self.w = dict(open=30, load=20, mutate=8, copy=4, drop=3, cli=8, redeliver=5, damage=6, restore=4, delete=4, tear=5, cachedir=3, purge=3)
+        self.w = dict(open=30, load=20, mutate=8, copy=4, drop=3, cli=8, redeliver=5, damage=6, restore=4, delete=4, tear=5, cachedir=3, purge=3, block=2)
         self.w.update(profile or {})
 
     def next_op(self):
@@ -115,6 +115,11 @@ class Driver:
 
     def _tear(self):
         return self._cell("tear")
+
+    def _block(self):
+        if not self.cache_ok:
+            return None
+        return {"op": "block", "loc": self.r.choice(self.locs), "img": self.r.choice(["a", "b"]), "cell": "local"}
 
     def _purge(self):
         if not self.cache_ok:
